@@ -43,13 +43,19 @@ _REAL_OUT = None
 _REAL_ERR = None
 
 
+def _printable(line):
+    # messages may quote lone surrogates / characters the terminal's encoding lacks: never fail while reporting
+    enc = getattr(_REAL_OUT, "encoding", None) or "utf-8"
+    return line.encode(enc, "backslashreplace").decode(enc, "replace")
+
+
 def out(line):
-    _REAL_OUT.write(line + "\n")
+    _REAL_OUT.write(_printable(line) + "\n")
     _REAL_OUT.flush()
 
 
 def err(line):
-    _REAL_ERR.write(line + "\n")
+    _REAL_ERR.write(_printable(line) + "\n")
     _REAL_ERR.flush()
 
 
